@@ -78,7 +78,7 @@ func buildReport(eng *Engine, cfg *PropConfig, prop, tier string, obligs []*Obli
 	byName := map[string]*Group{}
 	for _, ob := range obligs {
 		key := ob.Name
-		if ob.Canary {
+		if ob.Canary && ob.Kind == "canary" {
 			key = ob.Fn + "#vacuity"
 		}
 		g := byName[key]
@@ -90,6 +90,20 @@ func buildReport(eng *Engine, cfg *PropConfig, prop, tier string, obligs []*Obli
 		g.Instances = append(g.Instances, ob)
 	}
 	for _, g := range r.groups {
+		if g.Kind == "premise" {
+			// a clause `A ==> B` is vacuous if A can hold at no return
+			g.OK = false
+			for _, ob := range g.Instances {
+				if ob.Result != "unsat" && ob.Result != "error" {
+					g.OK = true
+				}
+			}
+			if !g.OK {
+				g.Fail = g.Instances[0]
+				g.Fail.Output = "the premise of this clause cannot hold at any return: the clause is vacuous (it constrains nothing)"
+			}
+			continue
+		}
 		if g.Kind == "canary" {
 			// reachable if at least one return's canary is NOT provable
 			g.OK = false
